@@ -19,9 +19,10 @@ def plan(tier, seed):
     rj.append({'template': 't1', 'kind': 'none', 'k': 1})
     rj.append({'template': 't1', 'kind': 'str', 'k': 2, 'shared_cache': True})
     rj.append({'template': 't3', 'kind': 'str', 'k': 2, 'shared_cache': True})
+    rj.append({'template': 't3', 'kind': 'str', 'k': 1, 'shared_cache': 'file'})
     famR = dict(name='text_render_unescaped', module=H, fn='render', jobs=rj, timeout=400 if quick else 1500, vacuity=1,
                 program_key='template', mutants=[{'name': 'text_mode_escapes', 'cfg': rj[0]},
-                                                 {'name': 'digest_without_class', 'cfg': rj[-1]}])
+                                                 {'name': 'digest_without_class', 'cfg': rj[-2]}])
     famF = dict(name='text_file_bytes', module=H, fn='file_bytes', jobs=[{'file': True}], timeout=600, vacuity=1,
                 mutants=[{'name': 'incremental_encoder_cached', 'cfg': {'file': True}}])
     return dict(
@@ -33,7 +34,7 @@ def plan(tier, seed):
         bounds=('text-mode front end on %d source shapes with up to %d symbolic code points (markup-looking skeletons '
                 'included): one token equal to the source, emitted text = source with $$ -> $; %d renders of 5 text '
                 'templates with ${v} at several places, v = %d symbolic code points (str / object with __str__ / None): '
-                'output = literal parts + str(v), nothing escaped (two of them also compiled after a markup template of the same source through one on-disk module cache). The ${...} delimiting itself is C06\'s kernel. Outside: '
+                'output = literal parts + str(v), nothing escaped (two of them also compiled after a markup template of the same source through one on-disk module cache, one as a file served first by PageTemplateFile, then by PageTextTemplateFile). The ${...} delimiting itself is C06\'s kernel. Outside: '
                 'CR/CRLF (normalised as documented for non-XML input), entity decoding inside ${} expressions (known '
                 'finding). PageTextTemplateFile: every history of 3 renders on one instance with values from a 5-element pool '
                 '(ASCII, Latin-1, markup, empty, CJK) under 6 output encodings (stateless and stateful codecs): each result is '
